@@ -82,6 +82,9 @@ impl Family for C16 {
       // interval kinds: virtual time the subscriber spends inside every tick's callback (0 = none)
       ("tick_work_ms", Json::Int(if kind.starts_with("interval") && rng.below(4) == 0 { *rng.pick(&[d / 3, d / 2 + 7]) } else { 0 })),
       ("delay_us", Json::Int(if (kind == "delay" || kind == "delay-two-sources") && rng.below(4) == 0 { *rng.pick(&[300i64, 800, 1500, 99_999]) } else { 0 })),
+      // sample / debounce: virtual time the subscriber spends inside every item's callback (0 = none);
+      // whoever else could hand the same item on meanwhile (a flush at completion, a second tick) does
+      ("consumer_work_ms", Json::Int(if (kind == "sample" || kind == "debounce") && rng.below(3) == 0 { *rng.pick(&[d / 2 + 3, d + 9, 2 * d + 5]) } else { 0 })),
     ])
   }
   fn knobs(&self, rng: &mut Rng, w: &Json, _tier: Tier) -> Json {
@@ -129,6 +132,10 @@ impl Family for C16 {
     if tick_work < 0 || tick_work >= d {
       return RunOut::invalid();
     }
+    let consumer_work = if w.get("consumer_work_ms").is_some() && (kind == "sample" || kind == "debounce") { w.i("consumer_work_ms") } else { 0 };
+    if consumer_work < 0 || consumer_work > 5000 {
+      return RunOut::invalid();
+    }
     // a subscriber that works inside the callback: instants become lower bounds (like under jitter)
     let slow_ticks = tick_work > 0;
     for k in 0..delays.len() {
@@ -163,7 +170,7 @@ impl Family for C16 {
     let rec_delays_two = kind == "sample-two-triggers";
     rec.next_delays_ns = Arc::new(if rec_delays_two {
       vec![trigger_ms as u64 * MS; 16]
-    } else if slow_ticks { vec![tick_work as u64 * MS; 16] } else { delays.iter().map(|x| *x as u64 * MS).collect() });
+    } else if slow_ticks { vec![tick_work as u64 * MS; 16] } else if consumer_work > 0 { vec![consumer_work as u64 * MS; 16] } else { delays.iter().map(|x| *x as u64 * MS).collect() });
     let rec_b = Recorder::new();
     let src_log = Arc::new(Mutex::new(SrcLog::default()));
     let marks: Arc<Mutex<Vec<(&'static str, u64, u64)>>> = Arc::new(Mutex::new(Vec::new())); // (what, seq, t)
@@ -616,6 +623,14 @@ const C15_CONSTRUCTS: &[&str] = &[
   "skip_until-by-interval",
   "skip_until-by-observe_on",
   "take_until-by-interval",
+  // a timer with nothing to wait for
+  "timer-zero",
+  // the source is a Subject and the subscriber - running on the operator's worker thread - pushes
+  // the next item into it from inside its callback (100 -> 101 -> 102)
+  "debounce-feedback",
+  "sample-feedback",
+  "timeout-feedback",
+  "observe_on-feedback",
 ];
 // "unsubscribe-in-scheduler-factory": the scheduler factory of an inner stream (flat_map nestings)
 // unsubscribes the whole subscription - the inner stream's observer dies exactly while it is being set up
@@ -737,6 +752,27 @@ impl Family for C15 {
           *factory_hook.lock().unwrap() = Some(Arc::new(move || s2.step_all(&Step::N(1))));
         }
         let iv = || observables::interval(ms(d), sched()).map(|x| Val::Int(x as i64));
+        // feedback constructs: a harness task pushes the first item and, much later, the terminal
+        let fb_subject = subjects::Subject::<Val>::new();
+        let feedback = construct2.ends_with("-feedback");
+        let feedback_src = {
+          let (fb, handles, err) = (fb_subject.clone(), handles.clone(), src_end == "error");
+          move || {
+            let fb2 = fb.clone();
+            let h = rt::spawn_harness("feedback-source", move || {
+              rt::thread::sleep(ms(gap));
+              fb2.next(Val::Int(100));
+              rt::thread::sleep(ms(4 * d + gap + 11));
+              if err {
+                fb2.error(mk_err(3));
+              } else {
+                fb2.complete();
+              }
+            });
+            handles.lock().unwrap().push(h);
+            fb.observable()
+          }
+        };
         let mut o: Observable<'static, Val> = match construct2.as_str() {
           "interval" => iv(),
           "timer" => observables::timer(ms(d), sched()).map(|_| Val::Unit),
@@ -796,6 +832,11 @@ impl Family for C15 {
             timed_src().skip_until(trig.observe_on(sched()))
           }
           "take_until-by-interval" => timed_src().take_until(observables::interval(ms(d), sched())),
+          "timer-zero" => observables::timer(Duration::ZERO, sched()).map(|_| Val::Unit),
+          "debounce-feedback" => feedback_src().debounce(ms(d), sched()),
+          "sample-feedback" => feedback_src().sample(observables::interval(ms(d), sched())),
+          "timeout-feedback" => feedback_src().timeout(ms(5 * d), sched()),
+          "observe_on-feedback" => feedback_src().observe_on(sched()),
           "debounce-cold" => cold_source(vec![script.clone()], slog.clone(), None, true).debounce(ms(d), sched()),
           "timeout-cold" => cold_source(vec![script.clone()], slog.clone(), None, true).timeout(ms(d), sched()),
           "observe_on-cold" => cold_source(vec![script.clone()], slog.clone(), None, true).observe_on(sched()),
@@ -853,8 +894,17 @@ impl Family for C15 {
           }
         };
         let (m1, m2) = (mark_end.clone(), mark_end.clone());
+        let fb_next = if feedback { Some(fb_subject.clone()) } else { None };
         let sub = o.subscribe(
-          move |x| l1.lock().unwrap().push(Rec { seq_in: rt::seq(), seq_out: 0, task: rt::task_id().unwrap_or(0), t: rt::now_ns(), ev: Ev::Next(x) }),
+          move |x: Val| {
+            let i = if let Val::Int(i) = &x { Some(*i) } else { None };
+            l1.lock().unwrap().push(Rec { seq_in: rt::seq(), seq_out: 0, task: rt::task_id().unwrap_or(0), t: rt::now_ns(), ev: Ev::Next(x) });
+            if let (Some(fb), Some(i)) = (&fb_next, i) {
+              if (100..102).contains(&i) {
+                fb.next(Val::Int(i + 1));
+              }
+            }
+          },
           move |e| {
             l2.lock().unwrap().push(Rec { seq_in: rt::seq(), seq_out: 0, task: rt::task_id().unwrap_or(0), t: rt::now_ns(), ev: Ev::Error(err_id(&e)) });
             m1();
@@ -986,6 +1036,191 @@ impl Family for C15 {
       ("c15-workers-created", res.tasks.iter().filter(|t| t.origin == Origin::Library).count() as u64),
       ("c15-repeated-subscriptions", (repeats > 1) as u64),
     ];
+    RunOut { res, violations: v, fingerprint: fp, invalid: false, reach, history }
+  }
+}
+
+// ================================================================================================
+// C14 for the time-based operators: the same Observable value subscribed again (after the first
+// subscription ended, or while another one is running) gives each subscriber what the first, solitary
+// one got - same events at the same instants relative to its own subscribe (exact virtual clock,
+// per-subscription cold source with the same gaps, tie-free workloads)
+
+pub struct C14Timed;
+
+const C14T_KINDS: &[&str] = &["debounce", "sample", "delay", "timeout", "observe_on", "subscribe_on", "interval-take", "timer", "debounce-retry", "observe_on-retry"];
+
+impl Family for C14Timed {
+  fn name(&self) -> &'static str {
+    "c14-timed-operators-resubscribed"
+  }
+  fn threaded(&self) -> bool {
+    true
+  }
+  fn gen(&self, rng: &mut Rng, _tier: Tier) -> Json {
+    let kind = *rng.pick(C14T_KINDS);
+    let d = *rng.pick(&[100i64, 250]);
+    let n = rng.range(1, 3) as i64;
+    let trigger = *rng.pick(&[90i64, 160]);
+    let tie_kind = if kind.starts_with("debounce") { "debounce" } else { kind };
+    let mut gaps: Vec<i64>;
+    loop {
+      gaps = (0..n + 1)
+        .map(|_| {
+          let base = *rng.pick(&[d / 3, d / 2, d - 14, d + 14, 2 * d - 21, 7]);
+          base.max(7) / 7 * 7 + 1 + rng.below(3) as i64
+        })
+        .collect();
+      if !has_tie(tie_kind, d, trigger, &gaps, n) {
+        break;
+      }
+    }
+    Json::obj(vec![
+      ("kind", Json::str(kind)),
+      ("d_ms", Json::Int(d)),
+      ("n_items", Json::Int(n)),
+      ("gaps_ms", Json::arr(gaps.iter(), |g| Json::Int(*g))),
+      ("trigger_ms", Json::Int(trigger)),
+      // how the first, solitary subscription ends
+      ("first_ending", Json::str(*rng.pick(&["complete", "complete", "error", "unsubscribe"]))),
+      ("unsub_ms", Json::Int(d * rng.range(0, 2) as i64 + *rng.pick(&[13i64, 51, 77]))),
+      // the later subscriptions: one after the first ended, or two that overlap
+      ("overlap_ms", Json::Int(if rng.below(2) == 0 { 0 } else { *rng.pick(&[5i64, 37, 131]) })),
+      ("take", Json::Int(rng.range(1, 3) as i64)),
+    ])
+  }
+  fn knobs(&self, rng: &mut Rng, _w: &Json, _tier: Tier) -> Json {
+    let mut k = default_knobs(rng, true);
+    if let Json::Obj(m) = &mut k {
+      m.insert("jitter_ns".into(), Json::Int(0));
+      m.insert("step_budget".into(), Json::Int(80_000));
+    }
+    k
+  }
+  fn exec(&self, w: &Json, cfg: RunCfg) -> RunOut {
+    let kind = w.s("kind");
+    if !C14T_KINDS.contains(&kind.as_str()) || cfg.jitter_max_ns > 0 {
+      return RunOut::invalid();
+    }
+    let d = w.i("d_ms");
+    let n_items = w.i("n_items");
+    let gaps: Vec<i64> = w.a("gaps_ms").iter().filter_map(|x| x.as_i64()).collect();
+    let trigger_ms = w.i("trigger_ms");
+    let take = w.i("take");
+    let unsub_ms = w.i("unsub_ms");
+    let overlap = w.i("overlap_ms");
+    if d < 10 || d > 2000 || n_items < 0 || n_items > 4 || gaps.len() as i64 != n_items + 1 || gaps.iter().any(|g| *g < 1 || *g > 5000) || trigger_ms < 10 || trigger_ms > 2000 || take < 1 || take > 4 || unsub_ms < 1 || unsub_ms > 5000 || unsub_ms % d == 0 || overlap < 0 || overlap > 1000 {
+      return RunOut::invalid();
+    }
+    let first_ending = w.s("first_ending");
+    if !["complete", "error", "unsubscribe"].contains(&first_ending.as_str()) {
+      return RunOut::invalid();
+    }
+    let retry = kind.ends_with("-retry");
+    let tie_kind = if kind.starts_with("debounce") { "debounce" } else { kind.as_str() };
+    if has_tie(tie_kind, d, trigger_ms, &gaps, n_items) {
+      return RunOut::invalid();
+    }
+    let (_, t_term) = instants(&gaps, n_items);
+    let mut script: Vec<Step> = (0..n_items).map(|i| Step::N(100 + i)).collect();
+    script.push(if retry { Step::E(7) } else if first_ending == "error" { Step::E(5) } else { Step::C });
+    let phase = (if retry { 2 } else { 1 }) * t_term + 5 * d + 3 * trigger_ms + 50;
+    let gaps_ns: Vec<u64> = gaps.iter().map(|g| *g as u64 * MS).collect();
+    let recs: Vec<Recorder> = (0..3).map(|_| Recorder::new()).collect();
+    let t_sub: Arc<Mutex<Vec<u64>>> = Arc::new(Mutex::new(Vec::new()));
+    let src_log = Arc::new(Mutex::new(SrcLog::default()));
+    let (recs2, ts2, sl, kind2, sc, fe) = (recs.clone(), t_sub.clone(), src_log.clone(), kind.clone(), script.clone(), first_ending.clone());
+    let res = rt::run(cfg, move || {
+      let handles = Arc::new(Mutex::new(Vec::new()));
+      let nts = schedulers::new_thread_scheduler;
+      // under retry(2) every attempt fails after its items: two attempts, then the error
+      let src: Observable<'static, Val> = threaded_source("timed-source", sc.clone(), sl.clone(), true, gaps_ns.clone(), handles.clone());
+      let o: Observable<'static, Val> = match kind2.as_str() {
+        "debounce" => src.debounce(ms(d), nts()),
+        "debounce-retry" => src.debounce(ms(d), nts()).retry(2),
+        "sample" => src.sample(observables::interval(ms(trigger_ms), nts())),
+        "delay" => src.delay(ms(d)),
+        "timeout" => src.timeout(ms(d), nts()),
+        "observe_on" => src.observe_on(nts()),
+        "observe_on-retry" => src.observe_on(nts()).retry(2),
+        "subscribe_on" => src.subscribe_on(nts()),
+        "interval-take" => observables::interval(ms(d), nts()).take(take as usize).map(|x| Val::Int(x as i64)),
+        _ => observables::timer(ms(d), nts()).map(|_| Val::Unit),
+      };
+      // the first, solitary subscription
+      ts2.lock().unwrap().push(rt::now_ns());
+      let s0 = recs2[0].subscribe(&o);
+      if fe == "unsubscribe" {
+        rt::thread::sleep(ms(unsub_ms));
+        s0.unsubscribe();
+      }
+      rt::thread::sleep(ms(phase));
+      // the later ones
+      ts2.lock().unwrap().push(rt::now_ns());
+      let _s1 = recs2[1].subscribe(&o);
+      if overlap > 0 {
+        rt::thread::sleep(ms(overlap));
+        ts2.lock().unwrap().push(rt::now_ns());
+        let _s2 = recs2[2].subscribe(&o);
+      }
+      rt::thread::sleep(ms(phase + overlap));
+      _s1.unsubscribe();
+      loop {
+        let hs: Vec<_> = std::mem::take(&mut *handles.lock().unwrap());
+        if hs.is_empty() {
+          break;
+        }
+        for h in hs {
+          let _ = h.join();
+        }
+      }
+      rt::quiesce();
+    });
+    let blame = kind.trim_end_matches("-retry").to_string();
+    let blame = if blame == "interval-take" { "interval".to_string() } else { blame };
+    let mut v = Vec::new();
+    let t_sub = t_sub.lock().unwrap().clone();
+    let timeline = |k: usize, cut: Option<u64>| -> Vec<(String, u64)> {
+      let t0 = t_sub.get(k).copied().unwrap_or(0);
+      recs[k].events().iter().map(|r| (r.ev.show(), r.t.saturating_sub(t0))).filter(|(_, t)| cut.map_or(true, |c| *t < c)).collect()
+    };
+    let mut history = Vec::new();
+    for k in 0..t_sub.len() {
+      history.push(format!("subscription {} (subscribed at {:.1}ms): {}", k, t_sub[k] as f64 / 1e6, timeline(k, None).iter().map(|(e, t)| format!("{}@+{:.1}ms", e, *t as f64 / 1e6)).collect::<Vec<_>>().join(" ")));
+    }
+    match &res.outcome {
+      rt::Outcome::Ok | rt::Outcome::Leak { .. } => {
+        // the first one was cut at unsub_ms: only what lies before that instant is comparable
+        let cut = if first_ending == "unsubscribe" { Some(unsub_ms as u64 * MS) } else { None };
+        let want = timeline(0, cut);
+        for k in 1..t_sub.len() {
+          let got = timeline(k, cut);
+          if got != want {
+            v.push(Violation::new(
+              "resubscription-differs",
+              &blame,
+              format!(
+                "{}: subscription {} of the same observable value ({}) got [{}]; the first, solitary subscription (ended by {}) got [{}]{}",
+                kind,
+                k,
+                if overlap > 0 { "two later subscriptions overlap" } else { "after the first had ended" },
+                got.iter().map(|(e, t)| format!("{}@+{:.1}ms", e, *t as f64 / 1e6)).collect::<Vec<_>>().join(" "),
+                first_ending,
+                want.iter().map(|(e, t)| format!("{}@+{:.1}ms", e, *t as f64 / 1e6)).collect::<Vec<_>>().join(" "),
+                cut.map(|c| format!(" (compared up to +{:.1}ms)", c as f64 / 1e6)).unwrap_or_default()
+              ),
+            ));
+            break;
+          }
+        }
+      }
+      _ => v.push(outcome_violation(&res, &blame).unwrap()),
+    }
+    let mut fp = 0u64;
+    for h in &history {
+      fp = fp.wrapping_mul(0x100000001B3) ^ fnv(h);
+    }
+    let reach = vec![("c14-timed-overlapping", (overlap > 0) as u64), ("c14-timed-first-unsubscribed", (first_ending == "unsubscribe") as u64)];
     RunOut { res, violations: v, fingerprint: fp, invalid: false, reach, history }
   }
 }
